@@ -95,3 +95,30 @@ Example C02_sstore_example :
   sstore S2200 0 0 7 50000 false = Ok (20000, 0, 0) /\ sstore S1283 0 7 0 50000 false = Ok (200, 19800, 0) /\
   counter_after (run_writes (S2929 4800) (fun _ => 5) [(1, 0); (1, 5); (1, 0); (2, 0)] (fun _ => 5) 0) = Some 12400.
 Proof. exact ex_sstore. Qed.
+
+From Verif Require Import Model.Mem Model.MemSize Model.MemGas Proofs.MemGas_proofs.
+(** the memory-expansion fee (vm/gas_table.go memoryGasCost with the Memory object's own bookkeeping, all arithmetic on 64 bits
+    with the wraps written out): in a live frame lastGasCost is the total fee of the current length, so the fee charged for a
+    step is exactly the difference of the yellow-paper totals 3w + w^2/512 — the 64-bit subtraction never wraps — ... *)
+Theorem C02_memory_fee_is_difference_of_totals : forall st n fee st',
+  mg_inv st -> n mod 32 = 0 -> mg_step st n = Ok (fee, st') ->
+  mg_inv st' /\ fst st' = N.max (fst st) n /\ fee + mem_fee (fst st / 32) = mem_fee (fst st' / 32).
+Proof. exact mg_step_inv. Qed.
+Print Assumptions C02_memory_fee_is_difference_of_totals.
+
+(** ... and whatever sequence of expansions a frame makes, what it has paid for memory in total is the fee of the length it
+    reached: the same as expanding there in one step (path independence; the reference satisfies the same equation, so equal
+    lengths mean equal totals) *)
+Theorem C02_memory_fee_path_independent : forall sizes tot fin,
+  all_word_sizes sizes -> mg_run mg_init sizes = Some (tot, fin) -> tot = mem_fee (fst fin / 32) /\ mg_inv fin.
+Proof. exact mg_run_from_empty. Qed.
+Print Assumptions C02_memory_fee_path_independent.
+
+Example C02_memory_fee_example :
+  mg_run mg_init [32; 64; 32; 1024; 0; 96] = Some (98, (1024, 98)) /\
+  mg_run mg_init [1024] = Some (98, (1024, 98)) /\
+  mg_step (1024, 98) 0x1FFFFFFFE0 = Ok (36028809887088637 - 98, (0x1FFFFFFFE0, 36028809887088637)) /\
+  mg_run mg_init [0x2000000000] = None /\
+  step_cost 0x52 [100; 7] (64, 6) = Some (3 + 9) /\ step_cost 0x20 [0; 33] (0, 0) = Some (30 + 6 + 12) /\
+  step_cost 0xa2 [0; 5; 1; 2] (32, 3) = Some (375 + 750 + 40) /\ step_cost 0x37 [0; 0; two64] mg_init = None.
+Proof. exact ex_mem_gas. Qed.
